@@ -16,6 +16,7 @@ import ScpiVerif.Drv.Regs
 import ScpiVerif.Drv.Heap
 import ScpiVerif.Drv.Lexer
 import ScpiVerif.Drv.Match
+import ScpiVerif.Drv.ParseRun
 open ScpiVerif.Drv
 
 def dispatch (cfg : String) (inp : List String) (obs : List String) : Option Verdict :=
@@ -26,6 +27,9 @@ def dispatch (cfg : String) (inp : List String) (obs : List String) : Option Ver
   | some "H" => runHeap inp obs
   | some "L" => runLexer inp obs
   | some "M" => runMatch inp obs
+  | some "P" => runParse cfg inp obs
+  | some "P8" => runParse cfg inp obs
+  | some "P9" => runParse cfg inp obs
   | _ => none
 
 structure Stats where
